@@ -4,6 +4,8 @@ mod verif_deflate_core {
     use super::*;
     use crate::deflate::zlib::header_from_flags;
 
+//@SPEC@
+
     // ------------------------------------------------------------------
     // helpers
     // ------------------------------------------------------------------
@@ -405,6 +407,113 @@ mod verif_deflate_core {
         kani::cover!(fb != 0 && flush == TDEFLFlush::Full, "COV:dispatch.full_flush");
         kani::cover!(st == TDEFLStatus::Done, "COV:dispatch.done");
     }
+
+    // ------------------------------------------------------------------
+    // K-lenDist : the real record_match / record_literal / LZOxide token buffer and the real compress_lz_codes,
+    // on ONE symbolic token, with an identity "Huffman" table (code = symbol, fixed widths) so that the emitted
+    // bit string can be parsed back with the RFC tables. Covers LEN_SYM/LEN_EXTRA/SMALL_DIST_*/LARGE_DIST_*/BITMASKS,
+    // BitBuffer::{put_fast,flush}, OutputBufferOxide::put_bits, LZOxide::{write_code,init_flag,get_flag,consume_flag}.
+    // Complete over all 256 lengths x 32768 distances x 8 bit alignments.
+    // ------------------------------------------------------------------
+    const ID_LIT_BITS: u32 = 9;
+    const ID_DIST_BITS: u32 = 5;
+    const ID_CODES: [u16; MAX_HUFF_SYMBOLS] = { let mut a = [0u16; MAX_HUFF_SYMBOLS]; let mut i = 0; while i < MAX_HUFF_SYMBOLS { a[i] = i as u16; i += 1; } a };
+    fn identity_huff(h: &mut HuffmanOxide) {
+        h.codes[0] = ID_CODES;
+        h.codes[1] = ID_CODES;
+        h.code_sizes[0] = [ID_LIT_BITS as u8; MAX_HUFF_SYMBOLS];
+        h.code_sizes[1] = [ID_DIST_BITS as u8; MAX_HUFF_SYMBOLS];
+    }
+    /// all bits written so far: bytes[..inner_pos] followed by the low bits_in bits of bit_buffer, as one integer
+    fn emitted_bits(buf: &[u8; 32], inner_pos: usize, bit_buffer: u32, bits_in: u32) -> (u128, u32) {
+        let b = |k: usize| -> u128 { if k < inner_pos { (buf[k] as u128) << (8 * k) } else { 0 } };
+        let mut v: u128 = b(0) | b(1) | b(2) | b(3) | b(4) | b(5) | b(6) | b(7) | b(8);
+        v |= ((bit_buffer as u128) & ((1u128 << bits_in) - 1)) << (8 * inner_pos as u32);
+        (v, 8 * inner_pos as u32 + bits_in)
+    }
+    fn take(v: &mut u128, n: &mut u32, k: u32) -> u32 { let r = (*v & ((1u128 << k) - 1)) as u32; *v >>= k; *n -= k; r }
+
+    #[kani::proof]
+    #[kani::unwind(4)]
+    fn k_lz_one_match_roundtrip() {
+        let len: u32 = kani::any();
+        let dist: u32 = kani::any();
+        kani::assume(len >= 3 && len <= 258 && dist >= 1 && dist <= 32768);
+        let mut lz = LZOxide::new();
+        let mut h = HuffmanOxide::default();
+        record_match(&mut h, &mut lz, len, dist);
+        // token buffer contract (V-def-lz mirrors this in Verus)
+        assert!(lz.total_bytes == len, "OBL:lz.record_match_total_bytes [C01 C02 C10]");
+        assert!(lz.code_position == 4 && lz.flag_position == 0 && lz.num_flags_left == 7, "OBL:lz.record_match_positions [C02]");
+        assert!(lz.codes[1] as u32 == len - 3 && (lz.codes[2] as u32 | (lz.codes[3] as u32) << 8) == dist - 1, "OBL:lz.record_match_stores_len_minus3_dist_minus1 [C01 C10]");
+        // histogram slots == the RFC symbols of (len, dist); every other slot untouched (observed at symbolic indices)
+        let want_ls: usize = kani::any();
+        let want_ds: usize = kani::any();
+        kani::assume(want_ls < 29 && RFC_LEN_BASE[want_ls] as u32 <= len && (want_ls == 28 || len < RFC_LEN_BASE[want_ls + 1] as u32));
+        kani::assume(want_ds < 30 && RFC_DIST_BASE[want_ds] as u32 <= dist && (want_ds == 29 || dist < RFC_DIST_BASE[want_ds + 1] as u32));
+        let k0: usize = kani::any();
+        let k1: usize = kani::any();
+        kani::assume(k0 < 288 && k1 < 288);
+        assert!(h.count[0][k0] == (k0 == 257 + want_ls) as u16, "OBL:lz.record_match_litlen_histogram_is_rfc_symbol_only [C01 C10]");
+        assert!(h.count[1][k1] == (k1 == want_ds) as u16, "OBL:lz.record_match_dist_histogram_is_rfc_symbol_only [C01 C10]");
+
+        // emission through the real compress_lz_codes
+        identity_huff(&mut h);
+        lz.init_flag();
+        let mut buf = [0u8; 32];
+        let bits_in0: u32 = kani::any();
+        let bb0: u32 = kani::any();
+        kani::assume(bits_in0 < 8 && bb0 < (1 << bits_in0));
+        let mut out = OutputBufferOxide { inner: &mut buf, inner_pos: 0, local: true, bit_buffer: bb0, bits_in: bits_in0 };
+        let r = compress_lz_codes(&h, &mut out, &lz.codes, lz.code_position);
+        assert!(r.is_ok(), "OBL:lzcodes.ok_with_room [C10]");
+        let (ip, bbuf, bin) = (out.inner_pos, out.bit_buffer, out.bits_in);
+        assert!(bin < 8 && ip <= 8, "OBL:lzcodes.leaves_less_than_a_byte_pending [C02 C10]");
+        let (mut v, mut n) = emitted_bits(&buf, ip, bbuf, bin);
+        assert!(take(&mut v, &mut n, bits_in0) == bb0, "OBL:lzcodes.preserves_pending_bits [C02]");
+        let ls = take(&mut v, &mut n, ID_LIT_BITS);
+        assert!(ls >= 257 && ls <= 285, "OBL:lzcodes.length_symbol_in_257_285 [C10]");
+        let le = take(&mut v, &mut n, RFC_LEN_EXTRA[(ls - 257) as usize] as u32);
+        assert!(rfc_len_of(ls, le) == Some(len), "OBL:lzcodes.length_decodes_to_itself_by_rfc [C01 C10]");
+        let ds = take(&mut v, &mut n, ID_DIST_BITS);
+        assert!(ds <= 29, "OBL:lzcodes.distance_symbol_le_29 [C10]");
+        let de = take(&mut v, &mut n, RFC_DIST_EXTRA[ds as usize] as u32);
+        assert!(rfc_dist_of(ds, de) == Some(dist), "OBL:lzcodes.distance_decodes_to_itself_by_rfc [C01 C10]");
+        assert!(take(&mut v, &mut n, ID_LIT_BITS) == 256 && n == 0, "OBL:lzcodes.ends_with_one_end_of_block [C10]");
+        kani::cover!(len == 258 && dist == 32768, "COV:lz.max_match");
+        kani::cover!(len == 3 && dist == 1, "COV:lz.min_match");
+        kani::cover!(dist == 513, "COV:lz.large_dist_table");
+    }
+
+    fn lz_literals_body<const N: usize>() {
+        let lits: [u8; N] = kani::any();
+        let mut lz = LZOxide::new();
+        let mut h = HuffmanOxide::default();
+        let mut k = 0;
+        while k < N { record_literal(&mut h, &mut lz, lits[k]); k += 1; }
+        assert!(lz.total_bytes as usize == N && lz.code_position == 1 + N && lz.num_flags_left as usize == 8 - N, "OBL:lz.record_literal_counts [C01 C02]");
+        let kk: usize = kani::any();
+        kani::assume(kk < 288);
+        let mut expect = 0u16; let mut q = 0; while q < N { if lits[q] as usize == kk { expect += 1; } q += 1; }
+        assert!(h.count[0][kk] == expect, "OBL:lz.record_literal_histogram [C10]");
+        identity_huff(&mut h);
+        lz.init_flag();
+        let mut buf = [0u8; 32];
+        let mut out = OutputBufferOxide { inner: &mut buf, inner_pos: 0, local: true, bit_buffer: 0, bits_in: 0 };
+        let r = compress_lz_codes(&h, &mut out, &lz.codes, lz.code_position);
+        assert!(r.is_ok(), "OBL:lzcodes.literals_ok [C10]");
+        let (ip, bbuf, bin) = (out.inner_pos, out.bit_buffer, out.bits_in);
+        let (mut v, mut n) = emitted_bits(&buf, ip, bbuf, bin);
+        let mut k = 0;
+        while k < N { assert!(take(&mut v, &mut n, ID_LIT_BITS) == lits[k] as u32, "OBL:lzcodes.literals_in_order [C01 C10]"); k += 1; }
+        assert!(take(&mut v, &mut n, ID_LIT_BITS) == 256 && n == 0, "OBL:lzcodes.literals_then_end_of_block [C10]");
+    }
+    #[kani::proof]
+    #[kani::unwind(5)]
+    fn k_lz_literals2_roundtrip() { lz_literals_body::<2>(); }
+    #[kani::proof]
+    #[kani::unwind(5)]
+    fn k_lz_literals4_roundtrip() { lz_literals_body::<4>(); }
 
     //@PLAYBACK@
 }
